@@ -5,7 +5,9 @@ import (
 	"errors"
 	"fmt"
 	"io"
+	"net"
 	"net/url"
+	"os"
 	"strconv"
 	"strings"
 
@@ -17,7 +19,7 @@ import (
 // BuildError constructs a concrete Go error value from an error expression:
 //
 //	E    := kind | chain(E,E,...) | wrap(E) | join(E,...) | msg(E) | redir(code)
-//	kind := authn|authz|comm|timeout|arg|norule|internal|config|eof|deadline|canceled|urlerr|foreign|evalerr
+//	kind := authn|authz|comm|timeout|arg|norule|internal|config|eof|deadline|osdeadline|nettimeout|canceled|urlerr|foreign|evalerr
 //
 // chain(a,b,c) = errorchain.New(a).CausedBy(b).CausedBy(c); wrap = fmt.Errorf("%w");
 // join = errors.Join; msg = errorchain.NewWithMessage; redir = *heimdall.RedirectError.
@@ -114,6 +116,10 @@ func (p *parser) parse() (error, error) {
 		return context.DeadlineExceeded, nil
 	case "canceled":
 		return context.Canceled, nil
+	case "osdeadline":
+		return os.ErrDeadlineExceeded, nil
+	case "nettimeout":
+		return &net.OpError{Op: "read", Net: "tcp", Err: os.ErrDeadlineExceeded}, nil
 	case "urlerr":
 		return &url.Error{Op: "Get", URL: "http://x.invalid", Err: errForeign}, nil
 	case "foreign":
